@@ -10,6 +10,7 @@ Copyright (c) 2008, 2009 Centre national de la recherche scientifique (CNRS)
 #include <gmpxx.h>
 #include <cassert>
 #include <climits>
+#include <mutex>
 #include <cstdint>
 #include <optional>
 #include <stack>
@@ -77,6 +78,7 @@ class FastRational
     {
         std::stack<mpq_class> store; // uses deque as storage to avoid realloc
         std::stack<mpq_ptr, std::vector<mpq_ptr>> pool;
+        std::mutex mutex; // the pool is shared by all threads of the process
     public:
         mpq_ptr alloc();
         void release(mpq_ptr);
